@@ -331,8 +331,10 @@ class ModelBasedSearcher(StochasticSearcher):
         if len(exclusion_candidates) < self.num_initial_random_choices:
             return True
         # Determine whether there is any observed data after filtering
+        # Note: Entries of ``state.trials_evaluations`` may have no observation for
+        # the active metric (e.g., the only case was removed, or NaN was reported)
         state = self.state_transformer.state
-        if not state.trials_evaluations:
+        if state.num_observed_cases() == 0:
             return True
         if self._filter_observed_data is None:
             return False
